@@ -3,11 +3,14 @@
    unit, sumbool -> native OCaml types); N, positive, Z, nat stay the extracted
    inductive datatypes; no Extract Constant. *)
 From Coq Require Import Extraction ExtrOcamlBasic NArith List.
-From AV Require Import Generated.Table Spec.Utf8 Spec.Vt Model.Base Model.Utf8parse Model.Parser.
+From AV Require Import Generated.Table Spec.Utf8 Spec.Vt Spec.Strip Model.Base Model.Utf8parse Model.Parser Model.Strip.
 
 Extraction Language OCaml.
 
 Extraction "../ocaml/gen/extracted.ml"
   Model.Parser.advance Model.Parser.parser_new Model.Parser.cfg_default Model.Parser.mkCfg
   Model.Parser.state_change Generated.Table.all_states Generated.Table.state_disc Generated.Table.action_disc
-  Spec.Vt.vt_step Spec.Vt.vt_init.
+  Spec.Vt.vt_step Spec.Vt.vt_init
+  Spec.Strip.spec_strip Spec.Strip.strip_step Spec.Strip.s_init Spec.Utf8.valid_utf8
+  Model.Strip.strip_bytes_pieces Model.Strip.strip_str_pieces Model.Strip.strip_bytes_chunks Model.Strip.strip_str_chunks
+  Model.Utf8parse.u8_new.
